@@ -13,7 +13,7 @@
 From Coq Require Import List ZArith NArith Bool String.
 Import ListNotations.
 Require Import RV.Lib.PyStr RV.Model.LoginCache RV.Model.LoginCacheConc.
-Require Import RV.Proofs.LoginCacheDict RV.Proofs.LoginCacheSweep RV.Proofs.LoginCacheSound RV.Proofs.LoginCacheIndep RV.Proofs.LoginCacheConcProofs RV.Proofs.C17Final.
+Require Import RV.Proofs.LoginCacheDict RV.Proofs.LoginCacheSweep RV.Proofs.LoginCacheSound RV.Proofs.LoginCacheIndep RV.Proofs.LoginCacheConcProofs RV.Proofs.LoginCacheFault RV.Proofs.C17Final.
 Require RV.Gen.LoginMapGen.
 Open Scope Z_scope.
 
@@ -206,6 +206,26 @@ Theorem C17_pinned_concurrent_refuted :
                    (fst (pool_run false cfgc bk_alice sched (start two_alices) alice_entry)).
 Proof. exact unguarded_delete_raises. Qed.
 Print Assumptions C17_pinned_concurrent_refuted.
+
+(* A login during which the back-end RAISES (`login_body_fault`, tied to the code by the correspondence runs with
+   scripted back-end failures): either the back-end is not reached and the answer is the cached one, or its exception
+   comes out of login; and then nothing has been recorded -- the failed dictionary is exactly what housekeeping left, the
+   successful dictionary has no new entry.  A failure of the back-end is never turned into a (cacheable) rejection. *)
+Theorem C17_backend_fault_outcome : forall v cfg now c l p,
+  let rf := login_body_fault v cfg now c l p in
+  let r := login_body v cfg (fun _ _ => []) now c l p in
+  (r_called r = false /\ rf = r) \/ (r_called r = true /\ r_out rf = ORaise BackendError /\ r_called rf = true).
+Proof. exact fault_outcome. Qed.
+Print Assumptions C17_backend_fault_outcome.
+
+Theorem C17_backend_fault_records_nothing : forall cfg now c l p,
+  c_cache cfg = true -> NoDup (map fst (failed c)) ->
+  let rf := login_body_fault Vfix cfg now c l p in
+  r_out rf = ORaise BackendError ->
+  failed (r_cache rf) = sweepf (c_exp_f cfg) now (failed c)
+  /\ (forall e, In e (succ (r_cache rf)) -> In e (succ c)).
+Proof. exact fault_records_nothing. Qed.
+Print Assumptions C17_backend_fault_records_nothing.
 
 (* Tie T: the mapping prefix translated from the current source equals the model's map_login. *)
 Theorem C17_login_map_tie :
